@@ -1336,6 +1336,19 @@ def type_tables(jobs):
                         except Exception as e:  # noqa
                             acc.append("ERR:" + type(e).__name__)
                 rec["clssub"] = sc
+                if t["k"] == "union" and all(T[x - 1]["k"] == "cls" and T[x - 1]["c"] != 0 for x in t["args"]):
+                    # the same union handed to the helper as Python writes it (A | B, not normalised), plain and inside type[...]
+                    import functools
+                    import operator
+
+                    raw = functools.reduce(operator.or_, [R.real(T, x) for x in t["args"]])
+                    rr = []
+                    for c in range(1, typeuniv.NCLS + 1):
+                        try:
+                            rr.append([bool(subclasscheck(R.classes[c], raw)), bool(subclasscheck(type[R.classes[c]], type[raw]))])
+                        except Exception as e:  # noqa
+                            rr.append(["ERR:" + type(e).__name__, "ERR"])
+                    rec["clssub_raw"] = rr
                 rec["dispatch"] = dp
                 rec["dispatch_alone"] = da
             rows[str(i)] = rec
